@@ -10,9 +10,10 @@ Open Scope Z_scope.
 Definition zs (s : string) : list Z := map (fun a => Z.of_N (N_of_ascii a)) (list_ascii_of_string s).
 
 (* song fields read or written at lex time *)
-Record lexstate := mkLex { lx_timebase : Z; lx_logs : list (list ch); lx_vars : list (list ch * vval) }.
+Record lexstate := mkLex { lx_timebase : Z; lx_logs : list (list ch); lx_vars : list (list ch * vval);
+                           lx_rhythm : list (Z * list ch) }.
 Definition lx_add_log (ls : lexstate) (m : list ch) : lexstate :=
-  if SAKURA_MAX_LOGS <=? zlen (lx_logs ls) then ls else mkLex (lx_timebase ls) (lx_logs ls ++ [m]) (lx_vars ls).
+  if SAKURA_MAX_LOGS <=? zlen (lx_logs ls) then ls else mkLex (lx_timebase ls) (lx_logs ls ++ [m]) (lx_vars ls) (lx_rhythm ls).
 (* variables_get / variables_insert on the global scope: the latest insert wins *)
 Fixpoint vars_get (name : list ch) (vars : list (list ch * vval)) : option vval :=
   match vars with
@@ -20,7 +21,7 @@ Fixpoint vars_get (name : list ch) (vars : list (list ch * vval)) : option vval 
   | (n, v) :: r => if list_eqb n name then Some v else vars_get name r
   end.
 Definition vars_insert (ls : lexstate) (name : list ch) (v : vval) : lexstate :=
-  mkLex (lx_timebase ls) (lx_logs ls) ((name, v) :: lx_vars ls).
+  mkLex (lx_timebase ls) (lx_logs ls) ((name, v) :: lx_vars ls) (lx_rhythm ls).
 (* init_variables(), from the regenerated table *)
 Definition init_vars : list (list ch * vval) :=
   map (fun r => match r with
@@ -441,6 +442,29 @@ Definition check_variables (ls : lexstate) (cmd : list ch) (s : list ch) (ln : Z
       | None => Ok (None, s1, ln1, read_error_cmd ls s1 ln1 cmd)
       end.
 
+(* read_command_rhythm: letters with a rhythm definition are replaced by it, "(...)" spans are copied without
+   their parentheses, Sub/SUB is kept; the result is lexed in place *)
+Fixpoint rhythm_get (c : ch) (tbl : list (Z * list ch)) : list ch :=
+  match tbl with
+  | [] => []
+  | (k, v) :: r => if k =? c then v else rhythm_get c r
+  end.
+Fixpoint rhythm_expand (fuel : nat) (tbl : list (Z * list ch)) (s : list ch) : list ch :=
+  match fuel with
+  | O => []
+  | S f =>
+      match s with
+      | [] => []
+      | c :: r =>
+          if prefixb (zs "Sub") s || prefixb (zs "SUB") s then zs "SUB" ++ rhythm_expand f tbl (skipn 3 s)
+          else if c =? 40 then
+            let '(src, r', _) := get_token_nest s 0 40 41 in src ++ rhythm_expand f tbl r'
+          else if (64 <=? c) && (c <=? 127) then
+            (match rhythm_get c tbl with [] => [c] | m => m end) ++ rhythm_expand f tbl r
+          else c :: rhythm_expand f tbl r
+      end
+  end.
+
 (* ---- lex(): the main loop ---- *)
 Definition lex_out := (list tok * lexstate)%type.
 
@@ -536,7 +560,13 @@ Fixpoint lex_f (fuel : nat) (ls : lexstate) (src : list ch) (lineno : Z) : res l
                      let t0 := aval_to_i v in
                      let t1 := if t0 <=? 48 then 48 else t0 in
                      let t2 := if t1 >? 32767 then 32767 else t1 in
-                     loop n' (mkLex t2 (lx_logs ls) (lx_vars ls)) s2 ln2 harmony acc
+                     loop n' (mkLex t2 (lx_logs ls) (lx_vars ls) (lx_rhythm ls)) s2 ln2 harmony acc
+                   else if list_eqb ttype (zs "Rhythm") then
+                     let '(s2, ln2) := skip_space s1 ln in
+                     let '(block, s3, ln3) := get_token_nest s2 ln2 123 125 in
+                     do sub <- lex_f f ls (rhythm_expand (S (length block)) (lx_rhythm ls) block) ln3;
+                     let '(toks, ls') := sub in
+                     loop n' ls' s3 ln3 harmony (acc ++ toks)
                    else if list_eqb ttype (zs "Sub") then
                      let '(s2, ln2) := skip_space s1 ln in
                      let '(block, s3, ln3) := get_token_nest s2 ln2 123 125 in
@@ -593,7 +623,20 @@ Fixpoint lex_f (fuel : nat) (ls : lexstate) (src : list ch) (lineno : Z) : res l
              if harmony then
                let '(t, s1, ln1) := read_harmony_end r ln in loop n' ls s1 ln1 false (acc ++ [t])
              else loop n' ls r ln true (acc ++ [THarmonyBegin])
-           else if c =? 36 then Unsupported U_MACRO
+           else if c =? 36 then
+             (* read_def_rhythm_macro: $x{...} *)
+             match r with
+             | [] => loop n' (lx_add_log ls (zs "[ERROR](" ++ show_int ln ++ zs ") could not define Rhythm macro '" ++ [0] ++ zs "' ")) r ln harmony acc
+             | mc :: r1 =>
+                 let '(s2, ln2) := skip_space r1 ln in
+                 let s3 := if eq_char s2 61 then tl s2 else s2 in
+                 let '(s4, ln4) := skip_space s3 ln2 in
+                 let '(body, s5, ln5) := get_token_nest s4 ln4 123 125 in
+                 if (64 <=? mc) && (mc <=? 127) then
+                   loop n' (mkLex (lx_timebase ls) (lx_logs ls) (lx_vars ls) ((mc, body) :: lx_rhythm ls)) s5 ln5 harmony acc
+                 else
+                   loop n' (lx_add_log ls (zs "[ERROR](" ++ show_int ln5 ++ zs ") could not define Rhythm macro '" ++ [mc] ++ zs "' ")) s5 ln5 harmony acc
+             end
            else if c =? 123 then
              let s := c :: r in
              if true then
